@@ -97,7 +97,7 @@ Theorem C06_initial_data :
                exists t p, o_hinfo (wo w o) = Some t
                            /\ (exists ds, os_prov_data (sp_out sp o) = Some (ds, p))
                            /\ o_data (wo w o) =
-                              (if (nconn sp o =? 0) then []
+                              (if no_targets sp o then []
                                else if os_static (sp_out sp o) then [(None, p)]
                                else if (t =? sp_start sp)%Z then [(Some t, p)]
                                else [(Some (sp_start sp), p); (Some t, p)]))
@@ -113,9 +113,9 @@ Definition ex_day : Z := 86400000000%Z.
 Definition ex_ins : list ispec :=
   [mk_ispec 2 (Some ex_day) None None true; mk_ispec 0 (Some 0%Z) None None true; mk_ispec 1 (Some 0%Z) None None true].
 Definition ex_outs (breaker : bool) : list ospec :=
-  [mk_ospec false None (Some ([], ex_day)) None (Some ([DPull 0], 10));
-   mk_ospec false None (Some ([], 0%Z)) None (Some (if breaker then [] else [DPull 1], 11));
-   mk_ospec false None (Some ([], 0%Z)) None (Some ([DPull 2], 12))].
+  [mk_ospec false None (Some ([], ex_day)) None (Some ([DPull 0], 10)) false;
+   mk_ospec false None (Some ([], 0%Z)) None (Some (if breaker then [] else [DPull 1], 11)) false;
+   mk_ospec false None (Some ([], 0%Z)) None (Some ([DPull 2], 12)) false].
 Definition ex_comps : list comp := [mk_comp [0] [0] true; mk_comp [1] [1] true; mk_comp [2] [2] true].
 Definition ex_sp (breaker : bool) : spec := mk_sp ex_ins (ex_outs breaker) 0%Z.
 
